@@ -55,6 +55,7 @@ class RecordDecl:
     obj_attrs: dict = field(default_factory=dict)     # dotted attribute path -> class name of the (stateless) object it denotes
     ctor_kwargs: bool = False                          # constructor takes the immutable fields as keyword arguments
     ctor: dict = field(default_factory=dict)          # initial values of mutable fields for `Cls()`; presence enables the constructor
+    value: bool = False                                # a frozen dataclass compared by its fields: a constructed value may equal an existing one
 
 
 @dataclass
@@ -100,6 +101,7 @@ class Contract:
     assume_unreachable: tuple = ()            # source texts of `if` tests assumed False (each listed as an assumption)
     cand_locals: tuple = ()                   # locals that candidates may mention besides __done__/__ret__
     ghost_yield: dict = field(default_factory=dict)
+    classmethod_of: str = ''                  # for a @classmethod: the class that `cls` denotes (assumed: called on the defining class)
     rely_ensures: list = field(default_factory=list)
     note: str = ''
 
